@@ -1992,6 +1992,9 @@ static void DecodeBit(Word Code) {
                 BAsmCode[0] = 0x40 + ((Code - 8) << 3) + (AdrResult.Mode & 7);
                 BAsmCode[1] = AdrResult.Vals[0];
                 CodeLen     = 2;
+            } else if (FormatCode == 2) {
+                /* explicit :S, but not bit,base:11[SB] */
+                WrError(ErrNum_InvAddrMode);
             } else {
                 BAsmCode[0] = 0x7e;
                 BAsmCode[1] = (Code << 4) + AdrResult.Mode;
